@@ -1571,6 +1571,12 @@ class Palette(metaclass=_PaletteMeta):
             for p_cls in cls.PARENT_PALETTES:
                 p_cls.register_in_colors_conf(colors_conf)
 
+            if colors_conf.color_conf_component_is_registered(cls):
+                # registration of a parent palette modified the global config,
+                # all the synced palettes (including the palette of this class)
+                # were re-synced and this class was registered in process
+                return
+
         if cls.SYNTAX_DEFAULTS is not None:
             colors_conf.register_color_conf_component(cls.SYNTAX_DEFAULTS, cls)
 
